@@ -67,7 +67,7 @@ def call(family, inverse, x, params, box=None, tail_bound=None, extra=None):
     return attempt(fn, inputs=x.clone(), inverse=inverse, **kw)
 
 
-def knots_x(family, params, box):
+def knots_x(family, params, box, mbw=1e-3):
     """input-side knots of the bounded spline as the implementation places them (float64)"""
     K = params[param_shapes(family, 1, False)[0][0]].shape[0]
     left, right = box[0], box[1]
@@ -75,7 +75,7 @@ def knots_x(family, params, box):
         return [left + (right - left) * i / K for i in range(K + 1)]
     uw = params["unnormalized_widths"].double()
     w = torch.softmax(uw, -1)
-    w = 1e-3 + (1 - 1e-3 * K) * w
+    w = mbw + (1 - mbw * K) * w
     cw = torch.cumsum(w, -1)
     cw = torch.cat([torch.zeros(1, dtype=torch.float64), cw])
     cw = (right - left) * cw + left
@@ -83,9 +83,9 @@ def knots_x(family, params, box):
     return cw.tolist()
 
 
-def grid(family, params, box, dtype=torch.float64, per_bin=3):
+def grid(family, params, box, dtype=torch.float64, per_bin=3, mbw=1e-3):
     """sorted inputs concentrated on knots, their float neighbours, end points and bin interiors"""
-    ks = knots_x(family, params, box)
+    ks = knots_x(family, params, box, mbw)
     pts = set()
     lo, hi = box[0], box[1]
     inf = torch.tensor(math.inf, dtype=dtype)
@@ -106,3 +106,10 @@ def grid(family, params, box, dtype=torch.float64, per_bin=3):
 
 
 BOXES = [(0.0, 1.0, 0.0, 1.0), (-1.0, 1.0, -1.0, 1.0), (-3.0, 3.0, -3.0, 3.0), (0.0, 2.0, -1.0, 0.5), (-2.0, 5.0, 1.0, 2.0)]
+
+
+# non-default minimum bin sizes / derivative (width and height deliberately different)
+MINS = {"linear": [None],
+        "quadratic": [None, dict(min_bin_width=0.02, min_bin_height=0.005)],
+        "cubic": [None, dict(min_bin_width=0.02, min_bin_height=0.005), dict(min_bin_width=0.002, min_bin_height=0.03)],
+        "rq": [None, dict(min_bin_width=0.02, min_bin_height=0.005, min_derivative=0.05)]}
